@@ -84,7 +84,7 @@ def main(chk):
     mir = mirsym.dump_mir()
     jobs = [(r_induct, (mir, name, n, chk.seed), {}) for name in RING for n in ((1, 2, 3, 4, 5) if q else (1, 2, 3, 4, 5, 6, 8, 12))]
     chk.add(run_jobs(jobs))
-    chk.add(kani.run_family_set('C12', hs, jobs=14, timeout_s=240 if q else 1800))
+    chk.add(kani.run_family_set('C12', hs, jobs=14, timeout_s=240 if q else 1200))
     chk.assumptions += ['Kani models the dev profile of /repo: overflow checks and debug assertions on; every Rust panic and CBMC memory-safety check is a violation',
                         'allocation failure out of scope (Kani default)']
     chk.notes += ['periods above the bound', 'Display/Debug/serialization totality (covered in C11/C06 harnesses)']
